@@ -666,7 +666,9 @@ func (d *Dials[T]) monitor(
 					})
 				}
 			case *watchErrorReport:
-				if !skipVerify && !d.params.CallGlobalCallbacksAfterVerificationEnabled {
+				// only suppress the error callback while verification is delayed
+				// and the caller asked for global callbacks to be held back.
+				if !(skipVerify && d.params.CallGlobalCallbacksAfterVerificationEnabled) {
 					d.submitEvent(ctx, &watchErrorEvent[T]{
 						err: fmt.Errorf("error reported by source of type %T: %w",
 							v.source, v.err),
